@@ -123,7 +123,7 @@ func utilsMinMax(isMin bool) modelFn {
 			name, asrt := x.arrName(a.T)
 			arr := x.getArr(st, name, asrt)
 			for i := int64(0); i < n; i++ {
-				cur = app(op, cur, app("select", app("select", arr, app("s_arr", s)), app("+", app("s_off", s), fmt.Sprint(i))))
+				cur = app(op, cur, app("select", app("select", arr, app("s_arr", s)), app("at", app("s_off", s), fmt.Sprint(i))))
 			}
 		}
 		k(st, Term{x.define(st, "mm", srt, cur), a.T})
